@@ -190,6 +190,14 @@ fn int_pair<const N: usize, const M: usize>(sa: usize, va: &[i32], sb: usize, vb
     if (a < b) != (ord == Ordering::Less) || (a >= b) != (ord != Ordering::Less) {
         return Err(format!("operators < / >= disagree with the lexicographic order of {:?} vs {:?}", va, vb));
     }
+    // the same object on both sides (an identity shortcut must not change the answer)
+    {
+        let r = &a;
+        #[allow(clippy::eq_op)]
+        if !(a == a) || a != *r || a.partial_cmp(r) != Some(Ordering::Equal) || a.cmp(r) != Ordering::Equal || !(a <= *r) || a < *r {
+            return Err(format!("a buffer compared with itself is not equal: {:?}", va));
+        }
+    }
     // slices, references to slices, arrays, references to arrays
     let mut xb2 = xb.clone();
     if (a == xb[..]) != eq {
@@ -261,6 +269,21 @@ fn float_pair<const N: usize, const M: usize>(sa: usize, ca: &[i32], sb: usize, 
     }
     if (a == b) != eq {
         return Err(format!("buffer == buffer returned {}, sequences {:?} vs {:?}", a == b, va, vb));
+    }
+    // the same object on both sides: equality of floats is not reflexive, so an identity shortcut is wrong
+    {
+        let r = &a;
+        let self_eq = va.iter().all(|x| x == x);
+        #[allow(clippy::eq_op)]
+        let got = a == a;
+        let (s1, s2) = a.as_slices();
+        let own_slice = if s2.is_empty() { Some(a == *s1) } else { None };
+        if got != self_eq || (a != *r) == self_eq || a.partial_cmp(r) != lex_float(&va, &va) || own_slice.map_or(false, |x| x != self_eq) {
+            return Err(format!(
+                "a buffer compared with itself (same object): == gave {got}, partial_cmp gave {:?}, == its own slice gave {:?}; element-wise the sequence {:?} gives {self_eq} / {:?}",
+                a.partial_cmp(r), own_slice, va, lex_float(&va, &va)
+            ));
+        }
     }
     let want = lex_float(&va, &vb);
     if a.partial_cmp(&b) != want {
